@@ -9,7 +9,7 @@ COQ_EXTRACT = "Extract_C17.v"
 LEVEL = "proof"
 RULE = ("cases = operation trees over the header-only MTBDD templates instantiated for unsigned and std::set<unsigned> leaves, all built in "
         "the one process-wide node store: corpus; the complete slice of all trees `atom atom binary-apply`, `atom unary-apply`, `atom project`, "
-        "`atom atom apply project` and (sampled in the quick tier) `atom atom atom ternary-apply` over 2 variables and leaf values {0,1}, atom = "
+        "`atom atom apply project` and `atom atom atom ternary-apply` over 2 variables and leaf values {0,1}, atom = "
         "every construction from an assignment in {0,1,X}^2 or a constant; targeted families (canonicity: one function built in several ways; "
         "result equal to an operand; constants; every variable-order split of classifyCase incl. interleaved and disjoint supports; "
         "projection of each variable set; monotone renamings; ExtendWith / GetMtbddForPrefix round trips; don't-care at every position) and "
@@ -57,9 +57,7 @@ def exhaustive(rng, tier):
     for a, b, c in itertools.product(at, at, at):
         for f in range(3):
             t = G.Tree("u", 2); put(t, a); put(t, b); put(t, c); t.T(f, 0, 1, 2); tern.append(t.fmt())
-    sampled = tier == "quick"
-    if sampled: tern = rng.sample(tern, 1500)
-    return out, tern, sampled
+    return out, tern, False
 
 def targeted(rng, tier):
     out = []
@@ -157,7 +155,7 @@ def cases(rng, tier):
     cs += [(l, "exhaustive") for l in ex]
     cs += [(l, "exhaustive_ternary_sampled" if sampled else "exhaustive") for l in tern]
     cs += [(l, "targeted") for l in targeted(rng, tier)]
-    n = 2500 if tier == "quick" else 50000
+    n = 6000 if tier == "quick" else 100000
     for _ in range(n):
         dom = rng.choice("us")
         nv = rng.choice((1, 2, 3, 3, 4, 4, 5)) if tier == "thorough" else rng.choice((1, 2, 3, 3, 4, 4, 4, 5))
@@ -167,7 +165,7 @@ def cases(rng, tier):
 
 EXHAUSTIVE_SLICES = ("over 2 variables, leaf values {0,1}, atoms = all 18 constructions from {0,1,X}^2 with (v,d) in {(1,0),(0,1)} + 2 constants: ALL trees "
                      "atom-unary (every code), atom-project (every non-empty variable set), atom-atom-binary (4 codes per domain, both domains), "
-                     "atom-atom-add-project; atom^3-ternary is complete in the thorough tier and a seeded sample of 1500 in the quick tier "
+                     "atom-atom-add-project, atom^3-ternary (3 codes) "
                      "(the run as a whole is not exhaustive)")
 
 CORPUS = [
